@@ -268,10 +268,7 @@ theorem complete {P : Rec → List Instr} (hp : ∀ r, GoodProg (P r)) (recs : N
   rw [hall i] at this
   simpa using this
 
-/-- `GoodProg`, decidably -/
-def goodProg : List Instr → Bool
-  | .lock :: .write :: tail => tail.all (· == .flush)
-  | _ => false
+-- `GoodProg`, decidably: `goodProg` (in `Model/MT.lean`, so that the driver can evaluate it as well)
 
 theorem goodProg_sound {prog : List Instr} (h : goodProg prog = true) : GoodProg prog := by
   unfold goodProg at h
